@@ -1,8 +1,444 @@
-//! C05 — monitor not built yet.
+//! C05 — a crash at any write boundary leaves a store that restarts gap-free.
+//!
+//! Crash-point enumeration by imaging: a sequential workload runs once with a crash imager
+//! installed as the hook handler; at EVERY hit of every crash point (each file-system effect of
+//! the log, sidecars, indexes, index.json, artifacts, snapshots) the on-disk state (data dir +
+//! workspace `.rip`) is copied. A process killed at that instant leaves exactly these bytes
+//! (process crash, completed write(2)s are visible). Every image is then restarted with a fresh
+//! engine and judged: restart works, validated replay works, acknowledged appends are present
+//! exactly once, further appends continue the numbering, and the caches found are either
+//! reconciled or ignored (sampled C04 differential before and after the further appends).
+
+use crate::c04::{diff_summary, queries, run_query};
+use crate::fixture::{copy_dir, runtime, wait_for, App, Store};
+use crate::gen_hist::{exec, Known, OpKind};
+use crate::prng::Rng;
 use crate::report::{Cfg, Report};
+use crate::sched::sched;
+use crate::truth;
+use serde_json::{json, Value};
+use std::collections::{BTreeMap, HashMap};
+use std::path::PathBuf;
+use std::sync::{Arc, Mutex};
+use std::time::Duration;
+
+const POINT_PREFIXES: &[&str] = &["log.append.", "cont.cache.", "cache.", "index.", "artifact.", "snapshot."];
+
+#[derive(Clone, Debug)]
+struct Image {
+    dir: PathBuf,
+    point: &'static str,
+    op_index: usize,
+    op_kind: String,
+    acked: usize,
+    conts: Vec<String>,
+}
+
+#[derive(Default)]
+struct Shared {
+    active: bool,
+    op_index: usize,
+    op_kind: String,
+    acked: Vec<String>,
+    conts: Vec<String>,
+    images: Vec<Image>,
+    root: PathBuf,
+    data: PathBuf,
+    ws: PathBuf,
+    max_images: usize,
+    skipped: u64,
+    // sampling stride per point for very chatty points
+    hits: HashMap<&'static str, u64>,
+}
+
+fn wanted(point: &str) -> bool {
+    if point == "cache.scan" || point == "cache.rebuild.line" {
+        return false;
+    }
+    POINT_PREFIXES.iter().any(|p| point.starts_with(p))
+}
+
+fn plan_ops(rng: &mut Rng, n: usize) -> Vec<OpKind> {
+    // fixed prelude guarantees every op kind (and with it every crash point) occurs
+    let mut ops = vec![
+        OpKind::Msg,
+        OpKind::BigMsg,
+        OpKind::RunSpawned,
+        OpKind::Compile,
+        OpKind::SideEffects,
+        OpKind::Cursor,
+        OpKind::RunEnded,
+        OpKind::Msg,
+        OpKind::ManualCkpt,
+        OpKind::Msg,
+        OpKind::Auto,
+        OpKind::Msg,
+        OpKind::Schedule,
+        OpKind::Rotate,
+        OpKind::Branch,
+        OpKind::Handoff,
+        OpKind::BigMsg,
+    ];
+    let w = crate::gen_hist::default_weights();
+    for _ in 0..n {
+        ops.push(crate::gen_hist::pick_kind(rng, &w));
+    }
+    ops
+}
 
 pub fn run(cfg: &Cfg) -> i32 {
-    let mut r = Report::new("C05", "exploration", "not built");
-    r.fatal_inconclusive("monitor not built yet");
+    let mut r = Report::new(
+        "C05",
+        "fault_enumeration",
+        "every hit of every crash point (log/sidecar/index/artifact/snapshot write boundaries, incl. between body and \
+         newline of frames larger than the writer buffer) of every operation of seeded sequential workloads is imaged \
+         (copy of data dir + workspace .rip), restarted with a fresh engine and judged; distinct = distinct \
+         (operation kind, crash point) pairs whose image was restarted",
+    );
+    r.assume("a directory copy taken at a hook equals what a process kill leaves (process crash, not power loss; the code never fsyncs)");
+    r.assume("the workload is sequential, so the image is taken while no other writer is active");
+    let s = sched();
+    let rt = runtime(4);
+    let mut case = 0u64;
+    while !r.over(cfg) && case < cfg.tier.pick(200, 100_000) {
+        let idx = case;
+        case += 1;
+        if !cfg.mine(idx) {
+            continue;
+        }
+        let mut rng = cfg.case_rng(idx);
+        one_history(cfg, &mut r, &s, &rt, &mut rng, idx);
+    }
+    s.reset();
     r.finish(cfg)
+}
+
+fn one_history(cfg: &Cfg, r: &mut Report, s: &Arc<crate::sched::Sched>, rt: &tokio::runtime::Runtime, rng: &mut Rng, idx: u64) {
+    let store = Store::new("c05");
+    let img_root = store.dir.join("images");
+    let _ = std::fs::create_dir_all(&img_root);
+    let shared = Arc::new(Mutex::new(Shared {
+        root: img_root.clone(),
+        data: store.data.clone(),
+        ws: store.ws.clone(),
+        max_images: cfg.tier.pick(700, 1500),
+        ..Default::default()
+    }));
+    s.reset();
+    let sh2 = shared.clone();
+    s.set_custom(Some(Arc::new(move |point: &'static str, _ctx: &str| {
+        if !wanted(point) {
+            return;
+        }
+        let mut g = sh2.lock().unwrap();
+        if !g.active {
+            return;
+        }
+        let h = {
+            let e = g.hits.entry(point).or_insert(0);
+            *e += 1;
+            *e
+        };
+        // image the first 12 hits of a point always, then every 5th (keeps long histories affordable)
+        if h > 12 && h % 5 != 0 {
+            g.skipped += 1;
+            return;
+        }
+        if g.images.len() >= g.max_images {
+            g.skipped += 1;
+            return;
+        }
+        let n = g.images.len();
+        let dir = g.root.join(format!("{n}"));
+        copy_dir(&g.data, &dir.join("data"));
+        copy_dir(&g.ws.join(".rip"), &dir.join("ws").join(".rip"));
+        let img = Image {
+            dir,
+            point,
+            op_index: g.op_index,
+            op_kind: g.op_kind.clone(),
+            acked: g.acked.len(),
+            conts: g.conts.clone(),
+        };
+        g.images.push(img);
+    })));
+
+    // ---- workload (sequential) --------------------------------------------------------------
+    let app = App::open(&store, None).expect("open");
+    let c0 = app.store().ensure_default().expect("default");
+    {
+        let mut g = shared.lock().unwrap();
+        g.conts.push(c0.clone());
+        g.active = true;
+    }
+    let mut known = Known::default();
+    let ops = plan_ops(rng, cfg.tier.pick(8, 30));
+    let mut op_desc: Vec<String> = Vec::new();
+    for (i, kind) in ops.iter().enumerate() {
+        {
+            let mut g = shared.lock().unwrap();
+            g.op_index = i;
+            g.op_kind = format!("{kind:?}");
+        }
+        let conts: Vec<String> = shared.lock().unwrap().conts.clone();
+        let res = exec(&app, &store.data, &conts, &mut known, *kind, rng, &format!("c{idx}"));
+        op_desc.push(format!("{:?}", res.kind.unwrap_or(*kind)));
+        let mut g = shared.lock().unwrap();
+        g.op_kind = format!("{:?}", res.kind.unwrap_or(*kind));
+        g.acked.extend(res.acked);
+        if g.conts.len() < 4 {
+            g.conts.extend(res.new_conts);
+        }
+        // a read that rebuilds a lost sidecar (crash points inside the rebuild)
+        if i == 9 {
+            drop(g);
+            let _ = std::fs::remove_file(store.streams_dir().join(format!("{c0}.jsonl")));
+            {
+                let mut g = shared.lock().unwrap();
+                g.op_kind = "ReplayRebuild".into();
+            }
+            let _ = app.store().replay_events(&c0);
+        }
+    }
+    // a session through the router (snapshot + session frames)
+    {
+        let mut g = shared.lock().unwrap();
+        g.op_index = ops.len();
+        g.op_kind = "RouterRun".into();
+    }
+    let app2 = app.clone();
+    let c0b = c0.clone();
+    let log_path = store.log_path();
+    let ran = rt.block_on(async move {
+        let (st, v) = app2
+            .json(
+                "POST",
+                &format!("/threads/{c0b}/messages"),
+                Some(&json!({"content": json!({"tool":"write","args":{"path":"c05.txt","content":"x"}}).to_string()})),
+            )
+            .await;
+        if st != 202 {
+            return false;
+        }
+        let sid = v["session_id"].as_str().unwrap_or("").to_string();
+        wait_for(Duration::from_secs(20), || {
+            let t = String::from_utf8_lossy(&std::fs::read(&log_path).unwrap_or_default()).to_string();
+            if t.contains("continuity_run_ended") && t.contains(&sid) && t.matches(&sid).count() >= 3 && t.rfind("continuity_run_ended").map(|p| t[p..].contains(&sid) || true).unwrap_or(false) {
+                // run_ended for this session present?
+                for line in t.lines().rev().take(50) {
+                    if line.contains("continuity_run_ended") && line.contains(&sid) {
+                        return Some(());
+                    }
+                }
+            }
+            None
+        })
+        .await
+        .is_some()
+    });
+    if !ran {
+        r.inconclusive(&format!("case {idx}: router run did not finish"));
+    }
+    let (images, acked_all, skipped) = {
+        let mut g = shared.lock().unwrap();
+        g.active = false;
+        (std::mem::take(&mut g.images), g.acked.clone(), g.skipped)
+    };
+    s.set_custom(None);
+    drop(app);
+    r.count("images_taken", images.len() as u64);
+    r.count("image_hits_sampled_out", skipped);
+    r.count("workload_ops", ops.len() as u64 + 1);
+
+    // ---- judge every image -----------------------------------------------------------------
+    let mut per_point: BTreeMap<&'static str, u64> = BTreeMap::new();
+    for img in &images {
+        if r.over(cfg) && cfg.tier == crate::report::Tier::Quick && r.elapsed() > cfg.budget_s * 1.5 {
+            r.count("images_not_judged_time_budget", 1);
+            continue;
+        }
+        *per_point.entry(img.point).or_insert(0) += 1;
+        judge_image(r, img, &acked_all[..img.acked], idx);
+        r.eval();
+        r.distinct_str(&format!("{}@{}", img.op_kind, img.point));
+        let _ = std::fs::remove_dir_all(&img.dir);
+    }
+    for (p, n) in per_point {
+        r.count(&format!("point:{p}"), n);
+    }
+    if r.samples.len() < r.max_samples {
+        r.sample(json!({"case": idx, "ops": op_desc, "images": images.len(),
+            "first_images": images.iter().take(6).map(|i| json!({"op": i.op_kind, "point": i.point, "acked_before": i.acked})).collect::<Vec<_>>()}));
+    }
+}
+
+fn judge_image(r: &mut Report, img: &Image, acked: &[String], case: u64) {
+    let st = Store::at(&img.dir, true);
+    let _ = std::fs::create_dir_all(&st.ws);
+    let wit = |extra: Value| json!({"case": case, "op_index": img.op_index, "op": img.op_kind, "crash_point": img.point, "detail": extra});
+    let at = format!("crash@{}", img.point);
+
+    // (1) restart
+    let app = match App::open(&st, None) {
+        Ok(a) => a,
+        Err(e) => {
+            r.violation(&format!("C05/restart_failed/{at}"), &format!("engine cannot be constructed on the crash image: {e}"), wit(json!(e)));
+            return;
+        }
+    };
+    // (2) replay
+    let bytes = st.log_bytes();
+    if let Ok(log) = rip_log::EventLog::new(st.log_path()) {
+        if let Err(e) = log.replay_validated() {
+            r.violation(
+                &format!("C05/replay_fails_on_crash_image/{at}"),
+                &format!("replay_validated fails on the crash image ({} during {}): {e}", img.point, img.op_kind),
+                wit(json!(e.to_string())),
+            );
+            return;
+        }
+    }
+    // independent parse; an unterminated but complete last line is what a crash between body and newline leaves
+    let mut b2 = bytes.clone();
+    if !b2.is_empty() && *b2.last().unwrap() != b'\n' {
+        b2.push(b'\n');
+        r.count("images_with_unterminated_last_line", 1);
+    }
+    let frames = match truth::parse_log(&b2) {
+        Ok(f) => f,
+        Err(e) => {
+            r.violation(&format!("C05/torn_log_on_crash_image/{}/{at}", e.kind), &format!("log on the crash image is not whole frames: {}", e.detail), wit(json!(e.detail)));
+            return;
+        }
+    };
+    if let Err(e) = truth::check_streams(&frames) {
+        r.violation(&format!("C05/stream_order_on_crash_image/{}/{at}", e.kind), &e.detail, wit(json!(e.detail)));
+        return;
+    }
+    // (3) acknowledged appends present exactly once
+    let mut count: HashMap<&str, u32> = HashMap::new();
+    for f in &frames {
+        *count.entry(f.id()).or_insert(0) += 1;
+    }
+    for id in acked {
+        let n = count.get(id.as_str()).copied().unwrap_or(0);
+        if n != 1 {
+            r.violation(
+                &format!("C05/acknowledged_append_{}/{at}", if n == 0 { "lost" } else { "duplicated" }),
+                &format!("append acknowledged before the crash occurs {n} times after restart"),
+                wit(json!({"id": id, "n": n})),
+            );
+            return;
+        }
+    }
+    // (5a) caches reconciled or ignored — before any further append
+    let conts: Vec<String> = img.conts.iter().filter(|c| frames.iter().any(|f| f.stream_id() == c.as_str())).cloned().collect();
+    differential(r, &st, &frames, &conts, "before_append", &at, &wit);
+
+    // (4) further appends continue the numbering
+    let store = app.store();
+    for c in &conts {
+        match store.append_message(c, "rv".into(), "rv".into(), "after-crash".into()) {
+            Ok(_) => {}
+            Err(e) => {
+                r.violation(&format!("C05/append_after_restart_failed/{at}"), &format!("append after restart failed: {e}"), wit(json!(e)));
+                return;
+            }
+        }
+        let _ = store.append_run_spawned(c, "m", "s-after", "rv".into(), "rv".into());
+    }
+    if let Some(c) = conts.first() {
+        let _ = store.compaction_auto_v1(
+            c,
+            ripd::CompactionAutoV1Request { stride_messages: Some(1), max_new_checkpoints: Some(1), dry_run: Some(false), actor_id: "rv".into(), origin: "rv".into() },
+        );
+    }
+    drop(app);
+    let bytes = st.log_bytes();
+    let frames2 = match truth::parse_log(&bytes) {
+        Ok(f) => f,
+        Err(e) => {
+            r.violation(
+                &format!("C05/log_torn_after_restart_append/{}/{at}", e.kind),
+                &format!("after restart + one append the log is no longer whole frames ({}): {}", img.point, e.detail),
+                wit(json!(e.detail)),
+            );
+            return;
+        }
+    };
+    if let Err(e) = truth::check_streams(&frames2) {
+        r.violation(
+            &format!("C05/numbering_broken_after_restart_append/{}/{at}", e.kind),
+            &format!("after restart + one append: {}", e.detail),
+            wit(json!(e.detail)),
+        );
+        return;
+    }
+    if let Ok(log) = rip_log::EventLog::new(st.log_path()) {
+        if let Err(e) = log.replay_validated() {
+            r.violation(&format!("C05/replay_fails_after_restart_append/{at}"), &format!("replay_validated fails after restart + append: {e}"), wit(json!(e.to_string())));
+            return;
+        }
+    }
+    // (5b) differential after the further appends
+    differential(r, &st, &frames2, &conts, "after_append", &at, &wit);
+    r.count("frames_on_images", frames2.len() as u64);
+}
+
+fn differential(
+    r: &mut Report,
+    st: &Store,
+    frames: &[truth::Frame],
+    conts: &[String],
+    when: &str,
+    at: &str,
+    wit: &dyn Fn(Value) -> Value,
+) {
+    // only the first (default) continuity and the newest one: keeps the cost per image bounded
+    let mut pick: Vec<&String> = Vec::new();
+    if let Some(c) = conts.first() {
+        pick.push(c);
+    }
+    if conts.len() > 1 {
+        pick.push(conts.last().unwrap());
+    }
+    for c in pick {
+        let tf = truth::stream(frames, "continuity", c);
+        let msgs = truth::messages(&tf);
+        let head = tf.last().map(|f| f.seq()).unwrap_or(0);
+        let qs = queries(&msgs, head, true);
+        let reference = st.fork_sharing_ws("c05ref");
+        let _ = std::fs::remove_dir_all(reference.streams_dir());
+        for q in qs.iter().filter(|q| {
+            matches!(q.class, "replay" | "cursor_status" | "selection_status" | "status" | "cut_points")
+                || q.name == "compile(anchor=tail)"
+                || q.name == "branch(none)"
+        }) {
+            if q.class == "cut_points" && !q.name.contains("stride=1,limit=None") {
+                continue;
+            }
+            if q.class == "status" && !q.name.contains("stride=1") {
+                continue;
+            }
+            if q.class == "selection_status" && !q.name.contains("limit=None") {
+                continue;
+            }
+            let fa = st.fork_sharing_ws("c05a");
+            let fb = reference.fork_sharing_ws("c05b");
+            let a = run_query(&fa, c, q);
+            let b = run_query(&fb, c, q);
+            r.count("recovered_store_queries_compared", 1);
+            if a != b {
+                r.violation(
+                    &format!("C05/recovered_cache_disagrees_with_truth/{}/{when}/{at}", q.class),
+                    &format!(
+                        "after a crash at {at} the restarted store answers {} from a cache that was neither reconciled nor ignored ({when}): {}",
+                        q.name,
+                        diff_summary(&a, &b)
+                    ),
+                    wit(json!({"query": q.name, "when": when, "diff": diff_summary(&a, &b)})),
+                );
+            }
+        }
+    }
 }
